@@ -4,7 +4,7 @@ From GV Require Import Front.Infix Front.InfixProofs Front.OpLookup Front.OpLook
 From GV Require Import Front.InfixComplete.
 From GV Require Import Front.SpanCheck Front.SpanCheckProofs Front.LayoutCheck Front.LayoutCheckProofs.
 From GV Require Front.AstEq.
-From GV Require Front.LayoutBase Front.Layout Front.LayoutProofs Front.LayoutModelProofs Front.LayoutTermination.
+From GV Require Front.LayoutBase Front.Layout Front.LayoutProofs Front.LayoutModelProofs Front.LayoutTermination Front.LayoutBalanced.
 Import ListNotations.
 
 (* The in-order traversal of the re-associated tree is the input chain. *)
@@ -161,3 +161,20 @@ Theorem C08_layout_model_terminates : forall raw : list LayoutBase.mtok,
   forall out, Layout.layout raw <> Layout.RFuel out.
 Proof. exact LayoutTermination.layout_model_terminates. Qed.
 Print Assumptions C08_layout_model_terminates.
+
+(* Balance of the model's own output.  [partial]: for runs that reach the end of the input and are
+   CLEAN — LayoutBalanced.clean_run: no iteration takes the give-up exit of layout.rs:325-332 while
+   dropping a block / bracket context or with a closing bracket in hand, none `continue`s past a bracket
+   context its closing token does not match, none closes a block by unindentation while that block's
+   own queued OpenBlock is the token in hand, and EOF is emitted with no context left — the virtual
+   OpenBlock / CloseBlock tokens of the output are balanced and properly nested with the real brackets
+   ( ) { } [ ] #[ : reading the output against a stack of expected closers never mismatches and ends
+   with the empty stack. *)
+Theorem C08_layout_model_balanced_partial : forall (raw out : list LayoutBase.mtok),
+  LayoutBase.k (last raw (LayoutBase.MTok LayoutBase.TEOF 12 0 1 0 0)) = LayoutBase.TEOF ->
+  LayoutBalanced.noopen raw ->
+  LayoutBalanced.clean_run raw = true ->
+  Layout.layout raw = Layout.ROk out ->
+  LayoutBalanced.bal [] out = Some [].
+Proof. exact LayoutBalanced.layout_model_balanced_partial. Qed.
+Print Assumptions C08_layout_model_balanced_partial.
